@@ -16,8 +16,8 @@ EXPLANATION = ("D3 (the core claim): the span-free MIR of every function of the 
                "table (AVX2 uses sse41 for single-block compression, avx2 for hash_many), passing its parameters through "
                "unchanged and in order; the xof_many fallback is D2x. K3: simd_degree arms vs module DEGREE vs "
                "MAX_SIMD_DEGREE. That compress_subtree_wide yields the same value for degree 1/4/8/16 depends on C05's "
-               "value-level residual and is not decided; MSVC/NEON/WASM flavours cannot be built here.")
-TRUSTED = ["rustc nightly MIR for every configuration that type-checks offline (13 configurations)", "mirfacts serialisation",
+               "value-level residual and is not decided; the wasm32 flavour cannot be built here (NEON is type-checked as config neon1, the MSVC .asm files are assembled after a mechanical directive translation).")
+TRUSTED = ["rustc nightly MIR for every configuration that type-checks offline (14 configurations incl. aarch64 neon1)", "mirfacts serialisation",
            "x86 feature implication table (avx512vl>avx512f>avx2>avx>sse4.2>sse4.1>ssse3>sse3>sse2)", "cpufeatures::new! checks the features it is given"]
 ASSUMPTIONS = ["kernels of one ISA level compute the same function (C05)"]
 TECHNIQUE = "cross-configuration structural MIR equality + dispatch-arm feature-gating / routing rules"
